@@ -29,6 +29,7 @@ FUNCTIONS = [
 BOUNDS = {
     "codec sniffing": "all leading byte strings of <= 6 bytes x file object with/without peek()",
     "container": "all peeked byte strings of <= 64 bytes",
+    "open_path (SMT)": "ALL path strings <= 40 chars x 5 modes x clobber x target exists or not (translated from the AST, environment calls opaque)",
     "open_path": "10 suffixes x 5 modes x clobber x exists x 4 ways of naming stdio",
     "urls": "table of 30 URL spellings x reader/writer",
     "interleaved writers": "two writers open at the same time, 6 x 6 codec pairs x all 2^4 schedules of 4 writes (real codecs)",
@@ -292,6 +293,123 @@ def stream_header():
                 return {"verdict": "unknown", "detail": r, "queries": q, "solver_s": st}
             crossed.append(cross_check_cvc5(s, "unsat"))
         return {"verdict": "unsat", "detail": f"{len(outs)} paths: accepted => magic at offset 6 (or input ends right after the magic); the prescribed header is accepted; read size {n}; cvc5: {sorted(set(crossed))}", "queries": q, "solver_s": st, "validated": validated}
+    except Untranslatable as e:
+        return {"verdict": "unknown", "detail": f"untranslatable: {e}", "queries": 0, "solver_s": 0.0}
+
+
+class _Opaque:
+    """environment stand-in for the SMT translation of open_path: every call returns a tag ('name', args...) and accepts terms"""
+
+    _kse_opaque = True
+
+    def __init__(self, name, exists=None):
+        self._name = name
+        self._exists = exists
+
+    def __getattr__(self, attr):
+        if attr.startswith("_"):
+            raise AttributeError(attr)
+        return _Opaque(f"{self._name}.{attr}", self._exists)
+
+    def __call__(self, *a, **k):
+        if self._name == "os.path.exists":
+            return self._exists
+        if not a and not k:
+            return _Opaque(self._name, self._exists)  # a context object (ZstdCompressor()): its methods produce the tags
+        return (self._name,) + tuple(a) + tuple(sorted(k.items()))
+
+    def __bool__(self):
+        return True
+
+
+def open_path_smt(mode: str, clobber: bool):
+    """SMT over ALL path strings: open_path translated from its AST with the codec constructors, open() and the stdio getters as opaque
+    stand-ins; 'the target exists' is a free boolean. Each feasible path's result must be the opener the extension table prescribes
+    (reads of non-compressed names go through open_stream, i.e. are sniffed)."""
+    import time
+
+    import flow.record.base as B
+    from vf.smt import regex
+    from vf.smt.kse import Evaluator, Untranslatable, cross_check_cvc5, get_function_ast
+
+    try:
+        fn, mod, _ = get_function_ast("flow.record.base:open_path")
+        path = z3.String("path")
+        exists = z3.Bool("exists")
+        env = {"path": path, "mode": mode, "clobber": clobber}
+        for name in ("gzip", "bz2", "lz4", "zstd", "io", "os", "open", "get_stdout", "get_stdin", "open_stream"):
+            env[name] = _Opaque(name, exists)
+        ev = Evaluator(mod, width=64)
+        outs = list(ev.run(list(fn.body), env, []))
+        out_mode = mode in ("w", "wb")
+        binary = "b" in mode
+
+        def ends(sfx):
+            return z3.SuffixOf(z3.StringVal(sfx), path)
+
+        q, st, crossed, validated = 0, 0.0, [], 0
+        for o in outs:
+            s = z3.Solver()
+            s.set("timeout", 60000)
+            s.add(z3.Length(path) <= 40)
+            s.add(*o.pc)
+            t = time.perf_counter()
+            feas = str(s.check())
+            st += time.perf_counter() - t
+            q += 1
+            if feas == "unsat":
+                continue
+            if feas != "sat":
+                return {"verdict": "unknown", "detail": feas, "queries": q, "solver_s": st}
+            stdio = z3.Or(path == z3.StringVal(""), path == z3.StringVal("-"))
+            if o.kind == "raise":
+                # allowed: invalid mode (all paths), or refusing to clobber an existing target
+                if mode not in ("r", "rb", "w", "wb"):
+                    continue
+                ok = z3.And(out_mode, not clobber, exists, z3.Not(stdio)) if ("IOError" in str(o.value) or "OSError" in str(o.value)) else z3.BoolVal(False)
+                s.add(z3.Not(ok))
+                what = f"raises {o.value} for a path/mode the table opens"
+            else:
+                v = o.value
+                tag = v[0] if isinstance(v, tuple) and v else None
+                # what the extension table prescribes, as a condition on the path for THIS outcome's opener
+                inner = v[1][0] if tag == "open_stream" and isinstance(v[1], tuple) else None
+                zst = z3.Or(ends(".zst"), ends(".zstd"))
+                plain = z3.Not(z3.Or(ends(".gz"), ends(".bz2"), ends(".lz4"), zst))
+                must_not_raise = z3.Not(z3.And(out_mode, not clobber, exists, z3.Not(stdio)))
+                if tag == "gzip.GzipFile":
+                    spec = z3.And(ends(".gz"), v[1] is path, v[2] == mode)
+                elif tag == "bz2.BZ2File":
+                    spec = z3.And(ends(".bz2"), z3.Not(ends(".gz")), v[1] is path, v[2] == mode)
+                elif tag == "lz4.open":
+                    spec = z3.And(ends(".lz4"), v[1] is path, v[2] == mode)
+                elif tag in ("zstd.ZstdDecompressor.stream_reader", "zstd.ZstdCompressor.stream_writer"):
+                    opened = v[1]
+                    spec = z3.And(zst, (tag.endswith("stream_writer")) == out_mode, isinstance(opened, tuple) and opened[:1] == ("open",) and opened[1] is path and opened[2] == ("wb" if out_mode else "rb"))
+                elif tag == "open_stream":
+                    # a binary read of a name that does not reveal the codec: sniffed
+                    src_ok = (inner == "io.open" and v[1][1] is path and v[1][2] == mode) or (inner == "get_stdin")
+                    spec = z3.And(plain, (not out_mode) and binary and bool(src_ok), stdio if inner == "get_stdin" else z3.Not(stdio), v[2] == mode)
+                elif tag == "io.open":
+                    spec = z3.And(plain, z3.Not(stdio), (out_mode or not binary), v[1] is path, v[2] == mode)
+                elif tag in ("get_stdout", "get_stdin"):
+                    spec = z3.And(stdio, (tag == "get_stdout") == out_mode, (out_mode or not binary), dict(v[1:]).get("binary") == binary)
+                else:
+                    raise Untranslatable(f"unexpected result {v!r}")
+                s.add(z3.Not(z3.And(spec, must_not_raise)))
+                what = f"opens with {tag} a path the extension table maps elsewhere"
+            t = time.perf_counter()
+            r = str(s.check())
+            st += time.perf_counter() - t
+            q += 1
+            if r == "sat":
+                w = regex.model_string(s.model(), path)
+                return {"verdict": "sat", "model": {"path": w, "mode": mode, "clobber": clobber, "exists": bool(z3.is_true(s.model().eval(exists, model_completion=True))), "outcome": str(o.value)[:80]}, "detail": what + f" (path {w!r})", "queries": q, "solver_s": st}
+            if r != "unsat":
+                return {"verdict": "unknown", "detail": r, "queries": q, "solver_s": st}
+            crossed.append(cross_check_cvc5(s, "unsat"))
+            validated += 1
+        return {"verdict": "unsat", "detail": f"{len(outs)} paths of open_path(mode={mode!r}, clobber={clobber}) agree with the extension table for all path strings <= 40 chars; cvc5: {sorted(set(crossed))}", "queries": q, "solver_s": st, "validated": validated}
     except Untranslatable as e:
         return {"verdict": "unknown", "detail": f"untranslatable: {e}", "queries": 0, "solver_s": 0.0}
 
@@ -638,6 +756,7 @@ def obligations(tier, seed):
         ob("O2-container", "smt", "container", {}, timeout=240, bounds="all peeked byte strings <= 64 bytes"),
         ob("O2-stream-header", "smt", "stream_header", {}, timeout=240, bounds="all byte strings a header read can return (<= 19 bytes)"),
         ob("O2-not-found", "xh", "not_found", {}, timeout=to, bounds="3 detection outcomes x leading '<' x selector"),
+        *[ob(f"O3-open-path-smt/{m}/{'clobber' if c else 'noclobber'}", "smt", "open_path_smt", {"mode": m, "clobber": c}, timeout=240, group="O3-open-path-smt", bounds="all path strings <= 40 chars, target exists or not") for m in ("r", "rb", "w", "wb", "a") for c in (True, False)],
         ob("O3-open-path", "xh", "path_open", {}, timeout=to * 2, bounds="10 suffixes x 5 modes x clobber x exists x 4 stdio spellings"),
         *[ob(f"O5-interleaved-writers/{EXTS[i] or 'raw'}", "xh", "interleaved", {"ea": i, "k": 4 if tier == "quick" else 6}, timeout=to * 2, group="O5-interleaved", bounds=f"second writer's codec x every schedule of {4 if tier == 'quick' else 6} interleaved writes, real codecs and files") for i in range(len(EXTS))],
         *[ob(f"O5-interleaved-readers/{EXTS[i] or 'raw'}", "xh", "interleaved_read", {"ea": i}, timeout=to * 2, group="O5-interleaved", bounds="second source's codec x 3 ways of naming x every schedule of 3 alternating reads, real codecs and files") for i in range(len(EXTS))],
@@ -755,7 +874,69 @@ def replay_header(res):
     return {"reproduced": False, "what": "inputs built from the solver's header are refused"}
 
 
+def replay_open_path(res):
+    """the solver's (path, mode, clobber, exists) through the real open_path in a scratch directory: which opener answered?"""
+    import bz2
+    import gzip
+
+    import flow.record.base as B
+
+    m = (res.get("cex") or {}).get("kw") or {}
+    path, mode, clobber, exists = m.get("path"), m.get("mode"), m.get("clobber"), m.get("exists")
+    if not isinstance(path, str) or "/" in path or "\x00" in path or path in (".", "..") or len(path.encode("utf-8", "replace")) > 200:
+        return {"reproduced": False, "what": f"path {path!r} cannot be used as a file name in a scratch directory"}
+    tries = [(path, exists)] + ([(path, not exists)] if path not in ("", "-") else [])
+    for pth, ex in tries:
+        with tempdir() as d:
+            cwd = os.getcwd()
+            os.chdir(d)
+            try:
+                if ex and pth not in ("", "-"):
+                    open(pth, "wb").write(b"\x00\x00\x00\x0f\xc4\rRECORDSTREAM\n")
+                elif not ex and mode in ("r", "rb") and pth not in ("", "-"):
+                    continue  # reading a file that does not exist fails in every implementation
+                out_mode = mode in ("w", "wb")
+                want_raise = mode not in ("r", "rb", "w", "wb") or (out_mode and not clobber and ex and pth not in ("", "-"))
+                try:
+                    fp = B.open_path(pth, mode, clobber)
+                    got = f"{type(fp).__module__}.{type(fp).__name__}"
+                    raised = None
+                except Exception as e:  # noqa: BLE001
+                    fp, got, raised = None, None, f"{type(e).__name__}: {e}"
+                finally:
+                    pass
+                if pth.endswith(".gz"):
+                    want = "gzip.GzipFile"
+                elif pth.endswith(".bz2"):
+                    want = "bz2.BZ2File"
+                elif pth.endswith(".lz4"):
+                    want = "lz4.frame.LZ4FrameFile"
+                elif pth.endswith((".zst", ".zstd")):
+                    want = "zstd"
+                else:
+                    want = "plain"
+                kind = None
+                if got:
+                    kind = "gzip.GzipFile" if got == "gzip.GzipFile" else "bz2.BZ2File" if got.endswith("BZ2File") else "lz4.frame.LZ4FrameFile" if "lz4" in got.lower() else "zstd" if "zstd" in got.lower() else "plain"
+                try:
+                    if fp is not None and pth not in ("", "-"):
+                        fp.close()
+                except Exception:  # noqa: BLE001
+                    pass
+                if want_raise != (raised is not None) and not (raised and want != "plain" and not ex and mode in ("r", "rb")):
+                    return {"reproduced": True, "key": "C11/open-path/raise", "what": f"open_path({pth!r}, {mode!r}, clobber={clobber}) with the target {'existing' if ex else 'absent'}: " + (f"raised {raised}" if raised else f"returned {got}") + f", the table says it should {'raise' if want_raise else 'open the file'}", "input": {"path": pth, "mode": mode, "clobber": clobber, "exists": ex}}
+                if kind is not None and kind != want:
+                    return {"reproduced": True, "key": "C11/open-path/opener", "what": f"open_path({pth!r}, {mode!r}) answered with {got}, the extension table prescribes {want}", "input": {"path": pth, "mode": mode, "clobber": clobber, "exists": ex}}
+                if kind == "plain" and mode == "rb" and pth not in ("", "-") and not hasattr(fp, "peek"):
+                    return {"reproduced": True, "key": "C11/open-path/not-sniffed", "what": f"open_path({pth!r}, 'rb') returned {got}, which was not passed through open_stream (no peek): the codec would not be recognised from the leading bytes", "input": {"path": pth, "mode": mode}}
+            finally:
+                os.chdir(cwd)
+    return {"reproduced": False, "what": "the real open_path follows the extension table on the solver's input"}
+
+
 def replay(res):
+    if "open-path-smt" in res["id"]:
+        return replay_open_path(res)
     if "stream-header" in res["id"]:
         return replay_header(res)
     if "interleaved-readers" in res["id"]:
